@@ -33,6 +33,9 @@ Classification (known findings must be narrow): a life is *tainted "midcmd"* iff
          the next one (= the receiver was busy sending a link command); *tainted "race"* iff a header ended within 6
          cycles before link-down or while down, or an accepted header's LGOOD had not been sent yet at link-down.  A violation in a tainted life is reported under the single mechanism
          of that class (detail carries the symptom); violations in clean lives carry the symptom as mechanism.
+Deviation from DESIGN.md section 7: usb_reset is not pulsed while `enable` stays high (luna's link layer never does that:
+         `in_reset` always comes with / during a link-down period); the systematic sweep is realised as "provoking event + swept
+         offset + PHY stall" with mandatory coverage bins per command and per phase instead of a literal per-cycle loop.
 Not judged: anything the DUT sends while the link is down; commands already in flight at the rising edge of enable
          (never happens because of the flush rule); LUP/LXU/LRTY; latency (only bounded progress: 120 / 150 / 300 cycles with
          source.ready high for the advertisement / the probe headers / the final drain).
